@@ -91,6 +91,8 @@ SeqToSet(s) == {s[i] : i \in 1..Len(s)}
 (*     expected, roots : stale-file-removal lists (paths = fs keys)         *)
 (*  desc.nodes : node name |-> [kind, path, filt]                           *)
 (*     kind "file" | "virtual" | "dir" | "dirstruct";  path = fs key        *)
+(*     (a "dir" node that a command produces also has  inner : fs key of    *)
+(*      the file the body writes inside the directory)                      *)
 (*  desc.targets : target name |-> sequence of node names                   *)
 
 Cmds == DOMAIN desc.cmds
@@ -177,7 +179,9 @@ RECURSIVE WriteOuts(_,_,_,_)
 WriteOuts(F, F0, c, j) ==       \* F0: the file system the body read its inputs from
   IF j > Len(Cmd(c).outs) THEN F
   ELSE LET o == Cmd(c).outs[j] IN
-       WriteOuts(IF NodeRec(o).kind # "file" THEN F
+       WriteOuts(IF NodeRec(o).kind = "dir" THEN      \* a directory output: the body creates it and (re)writes one file inside it
+                      WriteFile(MkDirs(F, PathOf(o)), NodeRec(o).inner, BodyText(F0, c, j))
+                 ELSE IF NodeRec(o).kind # "file" THEN F
                  ELSE IF Cmd(c).keep /\ F[PathOf(o)].t = "file" /\ F[PathOf(o)].c = BodyText(F0, c, j) THEN F   \* write-if-changed body
                  ELSE WriteFile(F, PathOf(o), BodyText(F0, c, j)), F0, c, j + 1)
 BodyFails(F, c) == Cmd(c).failif # "" /\ Exists(F, PathOf(Cmd(c).failif))
@@ -205,7 +209,10 @@ ValidNow(k, v, F) ==
     [] k.t = "C" -> IF k.n \in Cmds THEN CmdValid(k.n, v, F) ELSE FALSE
     [] OTHER ->  \* node
        LET n == k.n IN
-       IF Producers(n) # {} THEN v.k \notin {"FailedInput", "MissingInput"}
+       IF Producers(n) # {} THEN /\ v.k \notin {"FailedInput", "MissingInput"}
+                                 (* a produced directory node carries the tree signature of what is there now (its *)
+                                 (* signature sub-rule is one of its recorded dependencies)                           *)
+                                 /\ (v.k = "DirectoryTreeSignature" => v = VTreeSig(TreeObs(F, PathOf(n), <<>>)))
        ELSE CASE NodeRec(n).kind = "virtual" -> v.k = "VirtualInput"
               [] NodeRec(n).kind = "file" ->
                    IF Exists(F, PathOf(n)) THEN v = VExisting(Info(F, PathOf(n))) ELSE v.k = "MissingInput"
@@ -305,7 +312,9 @@ RunRule(k, S0, reason, inp) ==
            IF Cardinality(Producers(n)) > 1 THEN Finish([S EXCEPT !.failures = @ + 1], k, VFailedIn, FALSE, <<>>)
            ELSE LET c == ProducerOf(n)
                     S1 == Ensure(CK(c), S)
-                IN Finish(S1, k, ResultForOutput(c, n, Get(S1.mem, CK(c)).val), FALSE, <<Dep(CK(c), FALSE)>>)
+                    rv == ResultForOutput(c, n, Get(S1.mem, CK(c)).val)
+                IN Finish(S1, k, IF NodeRec(n).kind = "dir" /\ rv.k = "ExistingInput" THEN VTreeSig(TreeObs(S1.fs, PathOf(n), <<>>)) ELSE rv,
+                          FALSE, <<Dep(CK(c), FALSE)>>)
          ELSE CASE NodeRec(n).kind = "virtual" -> Finish(S, k, VVirtual, FALSE, <<>>)
                 [] NodeRec(n).kind = "file" ->
                      Finish(S, k, IF Exists(S.fs, PathOf(n)) THEN VExisting(Info(S.fs, PathOf(n))) ELSE VMissingIn, FALSE, <<>>)
